@@ -178,7 +178,7 @@ fn judge_proto(ctx: &Ctx, proto: Vec<Rec>) {
         }
         (None, _) => {
             // T3: everything succeeded => must read back
-            let w = Written { bytes: h.bytes(), run };
+            let w = Written { bytes: h.snapshot(), run };
             if read_and_compare(ctx, &p, &w, P, None).is_some() {
                 ctx.nontrivial();
                 ctx.count("accepted:roundtrip-ok");
@@ -382,7 +382,7 @@ pub fn values(ctx: &Ctx) {
             pw.finalize().map_err(|e| format!("PointCloudWriter::finalize: {}", err_string(&e)))?;
         }
         wtr.finalize().map_err(|e| format!("finalize: {}", err_string(&e)))?;
-        Ok((h.bytes(), rejected))
+        Ok((h.snapshot(), rejected))
     });
     ctx.ops(14);
     let (bytes, rejected) = match res {
@@ -491,7 +491,7 @@ pub fn orders(ctx: &Ctx) {
                 w.finalize().map_err(|e| format!("finalize after failed transformer: {}", err_string(&e)))?;
             }
         }
-        Ok(h.bytes())
+        Ok(h.snapshot())
     });
     ctx.ops(10 * depth as u64 + 3);
     let bytes = match res {
